@@ -380,7 +380,10 @@ func c03Grammar(full bool) []*c03Expected {
 				nonBase++
 			}
 		}
-		if full || nonBase <= 2 {
+		// the merged-metadata leniency only exists for unary / client-stream errors without
+		// payloads: keep every metadata shape for those also in the quick tier
+		mergedFamily := c[0] <= 1 && c[1] == 0 && c[2] != 0 && c[3] == c03GrammarBase[3] && c[5] == c03GrammarBase[5] && c[6] == c03GrammarBase[6]
+		if full || nonBase <= 2 || mergedFamily {
 			if def := c03GrammarBuild(c); def != nil {
 				parts := make([]string, len(c))
 				for i, d := range c03GrammarDims {
@@ -910,6 +913,40 @@ func c03Mutations(def *conformancev1.TestCase) []c03Mut {
 						a.ResponseHeaders, a.ResponseTrailers = merged, nil
 					}
 				})
+				if class == "leniency" {
+					// The merged form is a legal way to report the metadata, so an expected value
+					// that is missing from it is still a missing header/trailer value: every
+					// (name, value) of the merged expectation removed in turn must fail.
+					mergedExp := c03MergeMetadata(exp.ResponseHeaders, exp.ResponseTrailers)
+					for hi, h := range mergedExp {
+						for vi := range h.Value {
+							hi, vi, name := hi, vi, h.Name
+							if len(h.Value) == 1 {
+								// removing the only value removes the entry
+								add("deviation", "merged-metadata-entry-removed", pf("merged[%d]", hi), variant, [][]c03Tok{c03W(name)}, func(a *c03Result) {
+									merged := c03MergeMetadata(a.ResponseHeaders, a.ResponseTrailers)
+									merged = append(merged[:hi:hi], merged[hi+1:]...)
+									if toTrailers {
+										a.ResponseHeaders, a.ResponseTrailers = nil, merged
+									} else {
+										a.ResponseHeaders, a.ResponseTrailers = merged, nil
+									}
+								})
+								continue
+							}
+							add("deviation", "merged-metadata-value-removed", pf("merged[%d].value[%d]", hi, vi), variant, [][]c03Tok{c03W(name)}, func(a *c03Result) {
+								merged := c03MergeMetadata(a.ResponseHeaders, a.ResponseTrailers)
+								vals := merged[hi].Value
+								merged[hi].Value = append(append([]string{}, vals[:vi]...), vals[vi+1:]...)
+								if toTrailers {
+									a.ResponseHeaders, a.ResponseTrailers = nil, merged
+								} else {
+									a.ResponseHeaders, a.ResponseTrailers = merged, nil
+								}
+							})
+						}
+					}
+				}
 			}
 		}
 	}
